@@ -178,7 +178,7 @@ func (s *TermStore) intern(t *Term) *Term {
 func (s *TermStore) Var(name string, w int) *Term {
 	if t, ok := s.vars[name]; ok {
 		if int(t.w) != w {
-			panic(fmt.Sprintf("variable %s redeclared with width %d (was %d)", name, w, t.w))
+			panic(pathEnd{"harness-error", fmt.Sprintf("variable %s redeclared with width %d (was %d)", name, w, t.w)})
 		}
 		return t
 	}
